@@ -118,6 +118,58 @@ func c09CollectWaits(repo string) []c09WaitRec {
 	return out
 }
 
+// Stream transport write path (net/conn.go): where the frame write can block in the OS and what can wake it.
+//
+//	writeHoldsLock      – WriteWithContext calls c.connection.Write between c.lock.Lock() and the (deferred) Unlock
+//	closeTakesWriteLock – Close acquires c.lock before it calls c.connection.Close()
+//	writeArmsDeadline   – WriteWithContext arms a write deadline / AfterFunc from its context
+func c09CallsIn(fset *token.FileSet, fd *ast.FuncDecl) []string {
+	var out []string
+	ast.Inspect(fd.Body, func(n ast.Node) bool {
+		if c, ok := n.(*ast.CallExpr); ok {
+			out = append(out, c09ExprText(fset, c.Fun))
+		}
+		return true
+	})
+	return out
+}
+
+func c09Index(xs []string, want string) int {
+	for i, x := range xs {
+		if x == want {
+			return i
+		}
+	}
+	return -1
+}
+
+func c09StreamWriteFacts(repo string) (writeHoldsLock, closeTakesWriteLock, writeArmsDeadline bool) {
+	fset, f := parseFile(repo, "net/conn.go")
+	w := c09CallsIn(fset, funcDecl(f, "Conn", "WriteWithContext"))
+	iw := c09Index(w, "c.connection.Write")
+	if iw < 0 {
+		fail("net/conn.go: Conn.WriteWithContext: no call of c.connection.Write")
+	}
+	il := c09Index(w, "c.lock.Lock")
+	writeHoldsLock = il >= 0 && il < iw
+	for _, c := range w {
+		if strings.HasSuffix(c, "SetWriteDeadline") || strings.HasSuffix(c, "SetDeadline") || c == "context.AfterFunc" {
+			writeArmsDeadline = true
+		}
+	}
+	c := c09CallsIn(fset, funcDecl(f, "Conn", "Close"))
+	ic := c09Index(c, "c.connection.Close")
+	if ic < 0 {
+		fail("net/conn.go: Conn.Close: no call of c.connection.Close")
+	}
+	for i, x := range c {
+		if i < ic && (strings.HasSuffix(x, ".Lock") || strings.HasSuffix(x, ".RLock")) {
+			closeTakesWriteLock = true
+		}
+	}
+	return
+}
+
 func init() {
 	register("BlockingWaits.lean", func(g *gen, repo string) {
 		ws := c09CollectWaits(repo)
@@ -132,7 +184,15 @@ func init() {
 			}
 			fmt.Fprintf(&b, "  ⟨%q, %q, %q, %s⟩%s\n", w.file, w.fn, w.kind, natList(w.cases, func(s string) string { return fmt.Sprintf("%q", s) }), sep)
 		}
-		b.WriteString("]\n\nend CoapVerif.Generated.BlockingWaits\n")
+		b.WriteString("]\n\n")
+		hl, cl, ad := c09StreamWriteFacts(repo)
+		b.WriteString("/-- net/conn.go: the frame write happens while the connection's write lock is held -/\n")
+		fmt.Fprintf(&b, "def writeHoldsLock : Bool := %v\n", hl)
+		b.WriteString("/-- net/conn.go: Conn.Close acquires a lock before it closes the socket -/\n")
+		fmt.Fprintf(&b, "def closeTakesWriteLock : Bool := %v\n", cl)
+		b.WriteString("/-- net/conn.go: WriteWithContext arms a write deadline (or an AfterFunc) from its context -/\n")
+		fmt.Fprintf(&b, "def writeArmsDeadline : Bool := %v\n", ad)
+		b.WriteString("\nend CoapVerif.Generated.BlockingWaits\n")
 		g.write("BlockingWaits.lean", b.String())
 	})
 }
